@@ -700,6 +700,10 @@ FOCUS = {
 }
 
 
+def closed_ranks(t):
+    return t.ranks[0] == 1 and t.ranks[-1] == 1
+
+
 def swarm_config(prop, seed, faults):
     rnd = Streams(seed).py("config")
     deep = os.environ.get("SIMTT_TIER") == "thorough"   # deeper bounds in the thorough tier (set by the runner)
@@ -755,6 +759,18 @@ def _faults(rnd, cfg):
 def _choose(rnd, run, cfg, prop):
     t = run.t
     d = t.order
+    pend = getattr(run, "_pending", None)
+    if pend:
+        rec = pend.pop(0)
+        if rec["op"] != "ortho" or len(rec["args"].get("max_rank", [])) == d + 1:
+            rec["sub_seed"] = rnd.getrandbits(32)
+            return rec
+    caps = getattr(run, "_last_caps", None)
+    if caps is not None and len(caps) == d + 1 and rnd.random() < 0.12 and closed_ranks(t):
+        # the caller's list of per-bond caps lives on: let the ranks grow again (exact re-decomposition of the dense
+        # tensor) and request the very same caps once more
+        run._pending = [{"op": "ortho", "args": {"max_rank": list(caps)}}]
+        return {"op": "tt_from_array", "args": {}, "sub_seed": rnd.getrandbits(32)}
     w = FOCUS[prop]
     groups = [g for g in w for _ in range(w[g])]
     g = rnd.choice(groups)
